@@ -888,19 +888,23 @@ class NN:
             inl = strip_all(inline_new_helpers(self.r, d0))
             if inl == d0:
                 return [(d, guards)]
-        if not any(is_const(strip(leaf), None) for _, leaf in leaves(lift_ite(inl))):
+        lv = leaves(lift_ite(inl))
+        # the value that stands for "not a neighbour": None, or a module-level sentinel object the guards test against
+        markers = [strip(leaf) for _, leaf in lv if is_const(strip(leaf), None) or (head(strip(leaf)) == "glob" and strip(leaf)[1] in self.P.module_vars)]
+        if not markers:
             return [(d, guards)]
 
         def none_test(g, pol):
             g = strip_all(g)
-            return head(g) == "cmp" and g[2] == d0 and is_const(g[3], None) and ((g[1] in ("isnot", "!=") and pol) or (g[1] in ("is", "==") and not pol))
+            return head(g) == "cmp" and g[2] == d0 and strip(g[3]) in markers and ((g[1] in ("isnot", "!=") and pol) or (g[1] in ("is", "==") and not pol))
+        guards = [(a_, p_) for g, pol in guards for a_, p_ in lits(strip_all(g), pol)]
         tested = any(none_test(g, pol) for g, pol in guards)
         rest = [(g, pol) for g, pol in guards if not none_test(g, pol)]
         out = []
-        for path, leaf in leaves(lift_ite(inl)):
-            if is_const(strip(leaf), None):
+        for path, leaf in lv:
+            if strip(leaf) in markers:
                 if not tested:
-                    return [(d, guards)]        # a None distance would be inserted: left to the classifier as an unreadable value
+                    return [(d, guards)]        # a marker would be inserted as a distance: left to the classifier as an unreadable value
                 continue
             out.append((leaf, rest + list(path)))
         return out or [(d, guards)]
